@@ -5,6 +5,7 @@ import (
 	"fmt"
 	"unicode/utf8"
 
+	"github.com/tyler-sommer/stick/twig"
 	"github.com/tyler-sommer/stick/twig/escape"
 )
 
@@ -48,11 +49,18 @@ func init() {
 		var c struct {
 			Fn string `json:"fn"`
 			In Bytes  `json:"in"`
+			// "env": the escaper the Twig environment registers under this name (what templates and the escape filter use)
+			Via string `json:"via"`
 		}
 		if err := json.Unmarshal(raw, &c); err != nil {
 			return nil, err
 		}
 		f, ok := escapers[c.Fn]
+		if c.Via == "env" {
+			var e twig.Escaper
+			e, ok = twig.NewAutoEscapeExtension().Escapers[c.Fn]
+			f = e
+		}
 		if !ok {
 			return nil, fmt.Errorf("unknown escaper %q", c.Fn)
 		}
